@@ -3,6 +3,7 @@ package main
 import (
 	"fmt"
 	"go/token"
+	"go/types"
 	"strings"
 
 	"golang.org/x/tools/go/ssa"
@@ -45,7 +46,7 @@ func runC19(r *Run) {
 	}
 	dominatedByAny := func(b *ssa.BasicBlock, es []edge) bool {
 		for _, e := range es {
-			if len(e.To().Preds) == 1 && e.To().Dominates(b) {
+			if len(e.To().Preds) == 1 && dom(e.To(), b) {
 				return true
 			}
 		}
@@ -66,33 +67,11 @@ func runC19(r *Run) {
 			}
 		}
 		r.need(originHeader != nil, "originHeader = strings.ToLower(c.Get(\"Origin\"))")
-		// permission edges for the request origin
-		var permit []edge
-		for _, br := range branchesIn(h) {
-			if br.Info.Op == token.EQL && br.Info.Other != nil {
-				a, b := br.Info.Root, br.Info.Other
-				if a == originHeader {
-					a, b = b, a
-				}
-				if b == originHeader && dependsOn(a, func(v ssa.Value) bool { return cellName(v) == "allowOrigins" }) != nil {
-					permit = append(permit, edge{br.If.Block(), br.slotWhenRel(true)})
-				}
-			}
-		}
-		for _, c := range callsIn(h, false) {
-			if (strings.HasSuffix(c.Name, "cors.subdomain).match") || c.Name == "field:cors.Config.AllowOriginsFunc") && c.Value() != nil {
-				arg := c.Common.Args[len(c.Common.Args)-1]
-				if arg != originHeader {
-					continue
-				}
-				for _, br := range ifsOnValue(h, c.Value()) {
-					if s, ok := br.truthSlot(true); ok {
-						permit = append(permit, edge{br.If.Block(), s})
-					}
-				}
-			}
-		}
-		r.atLeast("permission edges (list, subdomain, func)", len(permit), 3)
+		// permission edges for the request origin (also inside boolean helpers the handler asks)
+		permit := corsPermitEdges(h, originHeader, func(v ssa.Value) bool {
+			return dependsOn(v, func(x ssa.Value) bool { return cellName(x) == "allowOrigins" }) != nil
+		}, 0)
+		r.atLeast("permission edges (list, subdomain, func — or helpers answering for them)", len(permit), 2)
 		allTrue := allEdges(h, true)
 		for i, c := range ssh {
 			v := c.Common.Args[1]
@@ -197,15 +176,15 @@ func runC19(r *Run) {
 				continue
 			}
 			// this is the validation if the block is reached via AllowCredentials == true
-			dom := false
+			underCreds := false
 			for _, b2 := range branchesIn(nf) {
 				if loadOfField(b2.Info.Root, "cors.Config.AllowCredentials") {
-					if s2, ok := b2.truthSlot(true); ok && b2.If.Block().Succs[s2].Dominates(br.If.Block()) {
-						dom = true
+					if s2, ok := b2.truthSlot(true); ok && dom(b2.If.Block().Succs[s2], br.If.Block()) {
+						underCreds = true
 					}
 				}
 			}
-			if !dom {
+			if !underCreds {
 				continue
 			}
 			_, hit := reachEdge(edge{br.If.Block(), sl}, isReturn, nil, nil)
@@ -265,7 +244,7 @@ func runC19(r *Run) {
 		}
 		r.need(len(mbrs) == 2, "two tests of c.Method() against OPTIONS")
 		pre := mbrs[0]
-		if mbrs[0].If.Block().Dominates(mbrs[1].If.Block()) {
+		if dom(mbrs[0].If.Block(), mbrs[1].If.Block()) {
 			pre = mbrs[1]
 		}
 		sl, _ := pre.slotFor(token.EQL)
@@ -378,24 +357,25 @@ func runC19(r *Run) {
 			{"HasPrefix(origin, prefix)", callOn("strings.HasPrefix", "prefix")},
 			{"HasSuffix(origin, suffix)", callOn("strings.HasSuffix", "suffix")},
 		}
-		var rets []*ssa.Return
-		for _, in := range instrsWhere(m, isReturn) {
-			rets = append(rets, in.(*ssa.Return))
-		}
-		r.need(len(rets) == 1, "match has a single return")
 		type leaf struct {
 			v    ssa.Value
 			from *ssa.BasicBlock
 		}
 		var leaves []leaf
-		rv := retOperand(rets[0], 0)
-		if ph, ok := rv.(*ssa.Phi); ok {
-			for k, e := range ph.Edges {
-				leaves = append(leaves, leaf{e, ph.Block().Preds[k]})
+		nret := 0
+		for _, in := range instrsWhereOne(m, isReturn) {
+			ret := in.(*ssa.Return)
+			nret++
+			rv := retOperand(ret, 0)
+			if ph, ok := rv.(*ssa.Phi); ok {
+				for k, e := range ph.Edges {
+					leaves = append(leaves, leaf{e, ph.Block().Preds[k]})
+				}
+			} else {
+				leaves = append(leaves, leaf{rv, ret.Block()})
 			}
-		} else {
-			leaves = append(leaves, leaf{rv, rets[0].Block()})
 		}
+		r.need(nret >= 1, "match returns")
 		for _, nd := range needs {
 			var pv ssa.Value
 			for _, b := range m.Blocks {
@@ -427,4 +407,107 @@ func runC19(r *Run) {
 			r.check(okN, "match:requires-"+nd.name, r.fpos(m), "match can only answer true when "+nd.name+" holds", "subdomain.match can answer true without "+nd.name+": an origin that merely contains the allowed domain, or is too short to hold both parts, is allowed")
 		}
 	})
+}
+
+// corsPermitEdges lists the CFG edges of f on which `origin` is known to be permitted: equality
+// with an element of the exact list, subdomain.match / AllowOriginsFunc / slices.Contains success,
+// or the true result of a boolean helper that answers true only behind such an edge.
+func corsPermitEdges(f *ssa.Function, origin ssa.Value, isList func(ssa.Value) bool, depth int) []edge {
+	var permit []edge
+	for _, br := range branchesIn(f) {
+		if br.Info.Op == token.EQL && br.Info.Other != nil {
+			a, b := br.Info.Root, br.Info.Other
+			if a == origin {
+				a, b = b, a
+			}
+			if b == origin && isList(a) {
+				permit = append(permit, edge{br.If.Block(), br.slotWhenRel(true)})
+			}
+		}
+	}
+	isPermitCall := func(c callSite) bool {
+		if c.Value() == nil || len(c.Common.Args) == 0 {
+			return false
+		}
+		if c.Common.Args[len(c.Common.Args)-1] != origin {
+			return false
+		}
+		if strings.HasSuffix(c.Name, "cors.subdomain).match") || c.Name == "field:cors.Config.AllowOriginsFunc" {
+			return true
+		}
+		if strings.HasPrefix(c.Name, "slices.Contains") && isList(c.Common.Args[0]) {
+			return true
+		}
+		return false
+	}
+	for _, c := range callsIn(f, false) {
+		if isPermitCall(c) {
+			for _, br := range ifsOnValue(f, c.Value()) {
+				if s, ok := br.truthSlot(true); ok {
+					permit = append(permit, edge{br.If.Block(), s})
+				}
+			}
+			continue
+		}
+		// a boolean helper asked about the origin
+		if depth >= 2 || c.Value() == nil {
+			continue
+		}
+		g := transparentCallee(c.Fn, c.Instr)
+		if g == nil || g.Signature.Results().Len() != 1 {
+			continue
+		}
+		if b, ok := g.Signature.Results().At(0).Type().Underlying().(*types.Basic); !ok || b.Kind() != types.Bool {
+			continue
+		}
+		k := -1
+		for i, a := range c.Common.Args {
+			if a == origin {
+				k = i
+			}
+		}
+		if k < 0 || k >= len(g.Params) {
+			continue
+		}
+		po := g.Params[k]
+		var inner []edge
+		withoutHelpers(func() {
+			inner = corsPermitEdges(g, po, func(v ssa.Value) bool {
+				return dependsOn(v, func(x ssa.Value) bool { _, isP := x.(*ssa.Parameter); return isP && x != ssa.Value(po) }) != nil
+			}, depth+1)
+		})
+		cut := map[edge]bool{}
+		for _, e := range inner {
+			cut[e] = true
+		}
+		okHelper := true
+		for _, in := range instrsWhereOne(g, isReturn) {
+			ret := in.(*ssa.Return)
+			op := retOperand(ret, 0)
+			if b, isC := constBool(asConst(op)); isC && !b {
+				continue
+			}
+			// a direct `return slices.Contains(list, origin)` / `return sd.match(origin)`
+			if call, isCall := stripValue(op).(*ssa.Call); isCall {
+				n := calleeName(&call.Call)
+				if len(call.Call.Args) > 0 && call.Call.Args[len(call.Call.Args)-1] == ssa.Value(po) &&
+					(strings.HasSuffix(n, "cors.subdomain).match") || strings.HasPrefix(n, "slices.Contains")) {
+					continue
+				}
+			}
+			// any other answer that may be true must sit behind a permission edge
+			if _, hit := reach(entryOf(g), func(x ssa.Instruction) bool { return x == in }, cut, nil); hit != nil {
+				okHelper = false
+			}
+		}
+		if !okHelper {
+			continue
+		}
+		for _, br := range ifsOnValue(f, c.Value()) {
+			if s, ok := br.truthSlot(true); ok {
+				permit = append(permit, edge{br.If.Block(), s})
+			}
+		}
+	}
+	return permit
 }
